@@ -15,7 +15,7 @@ func exp() {
 		fmt.Sscan(a, &n)
 		breaks = append(breaks, n)
 	}
-	s := debugRun(string(src), breaks, nil, []string{os.Args[3]}, 300, os.Args[4])
+	s := debugRun(string(src), breaks, nil, []string{os.Args[3]}, 300, os.Args[4], "one")
 	for _, e := range s.Events {
 		b, _ := json.Marshal(e)
 		fmt.Println(string(b))
